@@ -68,6 +68,14 @@ Proof.
   split; [exact Hp|]. eapply C04_parser_accepts_only_well_typed; exact Hp.
 Qed.
 
+(* the same for value expressions: a field with index accesses that does not iterate *)
+Theorem C04_grammar_value_is_accepted_partial : forall sch st text e,
+  GValue sch text e -> parse_value sch st text = LOk e [] /\ exists t, wt_value sch e = Some t.
+Proof.
+  intros sch st text e HG. pose proof (value_grammar_parses sch st text e HG) as Hp.
+  split; [exact Hp|]. eapply C04_parser_accepts_only_well_typed_values; exact Hp.
+Qed.
+
 (* text to execution: an accepted filter runs without panicking on every well-formed context *)
 Theorem C04_parsed_filter_never_panics : forall sch st text e rest c,
   parse_filter sch st text = LOk e rest -> ctx_ok sch c = true -> fns_ok sch -> run_filter sch e c <> None.
